@@ -508,3 +508,21 @@ OBLIGATIONS = [
        doc="contiguous, same rows, same range, cuts in row-free gaps, never raises on valid input"),
     Ob("twin_split", sym_twin_split, lambda tier: [dict(n=2)], None, setup=_setup, expect_cex=True),
 ]
+
+
+MUTANTS = [
+    dict(name="original F-C07: first gap never a candidate", file="strax/chunk.py", only="rechunk",
+         old="        argmin = -1\n", new="        argmin = 0\n"),
+    dict(name="split_array allows a split at a touching row", file="strax/chunk.py", only="split",
+         old='        if d["time"] >= latest_end_seen:\n            splittable_i = i', new='        if d["time"] > latest_end_seen - 1:\n            splittable_i = i'),
+    dict(name="concatenate accepts overlapping chunks", file="strax/chunk.py", only="concat",
+         old="            if c.start < prev_end:", new="            if c.start < prev_end - 1:"),
+    dict(name="merge ignores differing ranges", file="strax/chunk.py", only="merge",
+         old="        if len(set(tranges)) != 1:", new="        if False:"),
+    dict(name="rechunker cuts at the row start instead of 500 ns before", file="strax/chunk.py", only="rechunk",
+         old='                t=chunk.data["time"][index] - int(DEFAULT_CHUNK_SPLIT_NS // 2),\n                allow_early_split=False,\n            )\n            chunks.append(_chunk)',
+         new='                t=chunk.data["time"][index],\n                allow_early_split=False,\n            )\n            chunks.append(_chunk)'),
+    dict(name="run spans of the right half keep the old start", file="strax/chunk.py", only="runs_split",
+         old='            runs_second_chunk[run_id] = {"start": int(t), "end": run_start_end["end"]}',
+         new='            runs_second_chunk[run_id] = {"start": run_start_end["start"], "end": run_start_end["end"]}'),
+]
